@@ -120,20 +120,21 @@ EXTRA_TEXT = {
     "C01": " Windows with a bound of exactly 0, of width zero and with --input-min larger than --input-max (a decreasing map).",
     "C02": " Labels at the 32-bit boundary (2^32 - 1, 2^32, 2^32 + 1) in uint64 volumes.",
     "C03": " Non-cubic compressed_segmentation blocks with sparse contents; sharded datasets with different index / data encodings. The same coordinates are offered to several scales through one handle.",
-    "C04": " Several scales of one dataset written through one accessor object with interleaved stores. Identifiers with more than 53 significant bits (2^18 / 2^20 chunks per axis), shard-bit counts beyond the identifier width, different encodings for the minishard index and the data.",
+    "C04": " Chunk coordinates handed over as numpy integer scalars. Several scales of one dataset written through one accessor object with interleaved stores. Identifiers with more than 53 significant bits (2^18 / 2^20 chunks per axis), shard-bit counts beyond the identifier width, different encodings for the minishard index and the data.",
     "C06": " Volumes with empty margins, one-voxel-thick axes, multi-channel label images (compressed_segmentation pyramids whose channels share label sets) and uint64 volumes with values between 2^53 and 2^64-1 on odd sizes (a level must not depend on the chunking).",
     "C07": " Factors 4, 5, 6, 8 for stride and majority; downscalers re-created from one shared options dictionary.",
     "C08": " Clause IsotropyClosest (each axis within sqrt(2) of the finest once all axes are halved, from the generator's docstring); the IO layer's validator must accept the generated chunk grid. Requests for compressed_segmentation on narrow types with a block size in the description; voxel sizes in sixteenths of a nanometre.",
+    "C09": " Widest grids (62-64 identifier bits); numpy integer coordinates; the sharding spec as the --sharding option path writes it (to_dict) and an accessor reads it back.",
     "C10": " One decoder object decodes a valid chunk first and is then asked for the same / other bytes with another chunk size. Other image containers (1-bit, 16-bit, float samples) offered to the JPEG decoder; chunks with 4-7 channels and every cut inside the channel offset table.",
     "C11": " The encoders' own casts (foreign input types: refusal or the Convert() value, never wrapped). Values a hair off a rounding tie (a float32 detour would land on the tie).",
-    "C12": " A scale key with underscore, dash and dot; a payload that is itself a complete gzip stream. The accessor dispatcher is covered by its own module (Dispatch.tla, complete model): metadata states x unreadable metadata x URL forms x sharding option x HTTP readers x sessions; TLC-generated, directed (decision table with a store behind every row) and weighted random life-cycle histories run on a real directory + loopback server and are judged by Trace_Dispatch (ReadYourWrites, NoSilentMisroute, NoStaleRead through freshly dispatched accessors).",
-    "C13": " In fault-free programs a conversion the design accepts must succeed (oracle:ConvertFailed); per-scale different compressed_segmentation block sizes. Failing source chunk reads, --copy-info into a destination that holds another dataset, all-zero chunks, supervoxel volumes (more than 256 labels of uneven frequency inside one compressed_segmentation block).",
+    "C12": " Dataset directory names with '+', space and '%' behind file:// URLs; the options dictionary built by the real argument parser (every documented compression level and option spelling). A scale key with underscore, dash and dot; a payload that is itself a complete gzip stream. The accessor dispatcher is covered by its own module (Dispatch.tla, complete model): metadata states x unreadable metadata x URL forms x sharding option x HTTP readers x sessions; TLC-generated, directed (decision table with a store behind every row) and weighted random life-cycle histories run on a real directory + loopback server and are judged by Trace_Dispatch (ReadYourWrites, NoSilentMisroute, NoStaleRead through freshly dispatched accessors).",
+    "C13": " float32 -> uint32 / uint64 conversions with fractional and negative values. In fault-free programs a conversion the design accepts must succeed (oracle:ConvertFailed); per-scale different compressed_segmentation block sizes. Failing source chunk reads, --copy-info into a destination that holds another dataset, all-zero chunks, supervoxel volumes (more than 256 labels of uneven frequency inside one compressed_segmentation block).",
     "C14": " Pyramids whose scales share the bit triple but differ in encodings. Multi-scale sessions on pyramids that share sharding parameters (both read orders); server behaviour ErrorPageFit (an error status whose page has exactly the requested length) at every request position.",
     "C15": " compressed_segmentation and sharded destinations, blank slices, mixed 8/16-bit stacks, invalid stacks (must be refused), function-API conversions in one process, directory names whose sort order differs from the command-line order.",
     "C16": " Voxel sizes that are not whole nanometres; declared spatial units; multi-file histories through the function API with the default and with one shared options dictionary; same-path reruns in one process.",
     "C17": " Integer GIfTI point sets, read-only / re-used arrays, link tables with repeated labels and names colliding with existing files (LinksConflictClause).",
     "C18": " A re-exported sharded dataset with stale legacy shards next to it (no fault may make the reader fall back to them). The interposer emulates buffered files (small writes surface at flush / close / finalisation, finaliser errors are swallowed as CPython does) and a short-write mode; the tools' TMPDIR is enumerated as well; the metadata file is a store target; 14 command-line scenarios (every writing tool) with a strace audit of the enumeration; JPEG-encoded stores; one-minishard sharded sessions (ShardWriterFaults model with the Sticky switch); after a faulted HTTP fetch every other chunk is re-read through the same accessor.",
-    "C19": " Every command of a fault-free program that the design accepts must succeed (oracle:<Op>Failed); mesh-to-precomputed and link-mesh-fragments are command actions of the model and witness programs with them are replayed. Sharded programs through the real command line on non-power-of-two chunk grids with several --sharding triples; --encoding compressed_segmentation without --type; repeated / obstructed generate-scales-info.",
+    "C19": " All-in-one vs steps with --input-min together with --input-max; volumes that are exact multiples of the chunk size. Every command of a fault-free program that the design accepts must succeed (oracle:<Op>Failed); mesh-to-precomputed and link-mesh-fragments are command actions of the model and witness programs with them are replayed. Sharded programs through the real command line on non-power-of-two chunk grids with several --sharding triples; --encoding compressed_segmentation without --type; repeated / obstructed generate-scales-info.",
     "C20": " scale-stats must succeed on fault-free programs (oracle:StatsFailed); slice stacks of n*chunk+1 on every axis; thick-slice volumes whose chunk sizes shrink between scales. Failed-then-re-run compute-scales histories, destinations listing more / fewer scales than the source, sharded destinations with an obstructed shard path, statistics through the function API several times in one process.",
 }
 
